@@ -124,6 +124,14 @@ Proof. exact drop_never_removes_id. Qed.
 Print Assumptions C15_drop_never_removes_id.
 
 (* ... and through the Transaction methods: the catalog comes back identical *)
+(* dropping by key specification (IndexView.DropOneWithKey) is a drop by
+   name after a pure lookup: the history theorems above (in particular
+   C15_id_index_present and C15_drop_never_removes_id) cover it *)
+Theorem C15_drop_by_key_is_drop_by_name : forall ds sid h key,
+  exists name, drop_by_key_call ds sid h key = CDropIndex sid h name.
+Proof. exact drop_by_key_is_drop_by_name. Qed.
+Print Assumptions C15_drop_by_key_is_drop_by_name.
+
 Theorem C15_txn_create_same_is_noop :
   forall matchf c h nc name cf n ix,
     guard_write h = None -> ns_get (cat_ns c) h = Some nc ->
